@@ -1,9 +1,11 @@
+mod ab;
 mod alloc;
 mod common;
 mod fe;
 mod pc;
 mod pf;
 mod ps;
+mod rd;
 mod tr;
 mod tr2;
 
@@ -28,6 +30,9 @@ fn main() {
         "c15" => tr2::cmd_c15(tier, out),
         "c16" => tr2::cmd_c16(tier, out),
         "c17" => tr2::cmd_c17(tier, out),
+        "c18" => ab::cmd_c18(tier, out),
+        "c11" => rd::cmd_c11(tier, out),
+        "c10" => rd::cmd_c10(tier, out),
         "c03" => pc::cmd_c03(tier, out),
         "c04" => pc::cmd_parser(tier, out, "c04"),
         "c09" => pc::cmd_parser(tier, out, "c09"),
